@@ -21,11 +21,13 @@ func Get(hash hash.Hash) *Torrent {
 }
 
 // GetByName gets a torrent by name.  If behaves deterministically if
-// multiple torrents have the same name.
+// multiple torrents have the same name.  Torrents whose metadata is
+// incomplete are ignored: their name is merely the display name of
+// a magnet link, and must not hide a complete torrent of the same name.
 func GetByName(name string) *Torrent {
 	var torrent *Torrent
 	Range(func(h hash.Hash, t *Torrent) bool {
-		if t.Name == name {
+		if t.InfoComplete() && t.Name == name {
 			if torrent == nil || bytes.Compare(t.Hash, torrent.Hash) < 0 {
 				torrent = t
 			}
